@@ -250,8 +250,22 @@ fn check_write(name: &str, map: &mut Beatmap, good: &[u8], fault: WriteFault, at
     }
 }
 
+/// maps to encode: the bundled files plus maps with empty sections (an encoder path that returns early still has
+/// to report what the writer reports)
+fn write_pool() -> Vec<(String, Vec<u8>)> {
+    let mut v = crate::env::bundled_files();
+    v.push(("synthetic: default map".into(), Vec::new()));
+    v.push((
+        "synthetic: no hit objects".into(),
+        b"osu file format v14\n[Metadata]\nTitle:a\n[Events]\n2,100,200\n[TimingPoints]\n0,500,4,1,0,100,1,0\n[Colours]\nCombo1 : 1,2,3\n".to_vec(),
+    ));
+    v.push(("synthetic: hit objects only".into(), b"osu file format v9\n[HitObjects]\n1,2,3,1,0\n100,100,500,2,0,L|200:100,1,100\n".to_vec()));
+    v.push(("synthetic: mania, no events".into(), b"[General]\nMode: 3\nSpecialStyle: 1\n[HitObjects]\n64,192,0,128,0,500:0:0:0:0:\n".to_vec()));
+    v
+}
+
 fn write_side(tier: Tier, acc_out: &mut Acc) -> Value {
-    let files = crate::env::bundled_files();
+    let files = write_pool();
     let dense = tier.pick(3000, 60_000);
     let a = par_items(&files, |(name, bytes), acc| {
         let Ok(mut map) = rosu_map::from_bytes::<Beatmap>(bytes) else { return };
@@ -329,7 +343,7 @@ pub fn replay(case: &Value) -> Vec<Violation> {
         }
         "write-fault" => {
             let name = case["file"].as_str().unwrap_or("?");
-            if let Some((_, bytes)) = crate::env::bundled_files().into_iter().find(|(n, _)| n == name) {
+            if let Some((_, bytes)) = write_pool().into_iter().find(|(n, _)| n == name) {
                 let mut map = rosu_map::from_bytes::<Beatmap>(&bytes).unwrap();
                 let good = map.encode_to_string().unwrap().into_bytes();
                 let at = case["offset"].as_u64().unwrap_or(0) as usize;
@@ -365,7 +379,7 @@ pub fn run(tier: Tier) -> i32 {
         rule: "read side: every bundled file x 4 encodings x every byte offset 0..=len (dense up to a size limit, else head/tail and \
                line boundaries +-1) x 5 error kinds x chunkings {whole,1,7}: decode must return Err of exactly that kind, never Ok, \
                never panic (trace decoder everywhere, full Beatmap decoder on small files); every placement of one Interrupted (and \
-               every pair on tiny files) must give the fault-free result. write side: every map x every output offset x \
+               every pair on tiny files) must give the fault-free result. write side: every map (bundled files and four maps with empty sections, incl. the default map) x every output offset x \
                {Err(kind), Ok(0)}, failing flush, short writes, Interrupted at every write call: hard fault => Err of that kind \
                (WriteZero for Ok(0)), transient => Ok with identical bytes. Non-trivial/distinct = distinct (file, fault offset)"
             .into(),
